@@ -115,6 +115,9 @@ pub enum MetaVal {
     BytesParam(String),
     /// slot_to_time(time_to_slot(<literal time>)): snaps a timestamp to the slot grid
     TimeSnap(i128),
+    /// concat("<ascii padding>", "<tail>"): a text longer than one metadata chunk, built from two
+    /// literals that each pass the analyzer's length check
+    LongText(usize, String),
 }
 
 #[derive(Clone, Debug)]
@@ -425,6 +428,7 @@ impl Program {
                     MetaVal::Int(q) => pq(q),
                     MetaVal::BytesParam(p) => p.clone(),
                     MetaVal::TimeSnap(ms) => format!("slot_to_time(time_to_slot({}))", ms),
+                    MetaVal::LongText(pad, tail) => format!("concat(\"{}\", \"{}\")", "m".repeat(*pad), tail),
                 };
                 s.push_str(&format!("        {}: {},\n", k, vs));
             }
@@ -934,8 +938,12 @@ fn gen_tx(t: &mut Tape, cfg: &GenCfg, p: &mut Program, k: usize) -> TxSpec {
         if t.chance(1, 4) {
             let n = 1 + t.index(3);
             for i in 0..n {
-                let v = match t.draw(4) {
+                let v = match t.draw(5) {
                     3 => MetaVal::TimeSnap(1_757_611_408_000 + t.draw(200_000) as i128),
+                    4 => MetaVal::LongText(
+                        *t.pick(&[63usize, 62, 64, 61, 30]),
+                        t.pick(&["ña (ref 77)", "日本語のメモ", "é", "😀😀", "plain ascii tail", "x"]).to_string(),
+                    ),
                     0 => MetaVal::Str(format!("meta{}", i)),
                     1 => MetaVal::Int(small_q(t, &mut params, "m")),
                     _ => {
